@@ -286,6 +286,7 @@ impl AnimSpec {
         // timelines are registered first and the initial state / values are given last.
         let defaults_last = (self.initial_state as usize + self.states.iter().flatten().count()) % 3 == 0;
         let mut b = StateAnimatorBuilder::new();
+        let mut shared_definitions: std::collections::BTreeMap<usize, MergedTimeline<ValsTimeline>> = std::collections::BTreeMap::new();
         if !defaults_last {
             b = b
                 .from_state(St::from_index(self.initial_state as usize))
@@ -306,6 +307,20 @@ impl AnimSpec {
                 }
                 // every accepted argument form of `on` is used, chosen by the shape of the spec:
                 // a merged timeline, a built plain timeline, or the configuration builder itself
+                // two states given the same animation definition get clones of ONE merged
+                // timeline (`.on(A, t.clone()).on(B, t)`, which is also what an `A | B =>` arm
+                // of `animator!` installs): sharing a definition must not be observable
+                if let Some(j) = (0..i).find(|j| self.states[*j].as_ref() == Some(m)) {
+                    let _ = j;
+                    let shared = shared_definitions.entry(j).or_insert_with(|| m.build());
+                    b = b.on(St::from_index(i), shared.clone());
+                    continue;
+                }
+                if self.states[i + 1..].iter().any(|o| o.as_ref() == Some(m)) {
+                    let shared = shared_definitions.entry(i).or_insert_with(|| m.build());
+                    b = b.on(St::from_index(i), shared.clone());
+                    continue;
+                }
                 b = if m.parts.len() == 1 {
                     match (i + m.parts[0].kfs.len()) % 3 {
                         0 => b.on(St::from_index(i), m.build()),
